@@ -96,3 +96,19 @@ def run_family(cx, lang, family, d, minimal=False):
 def hoists(prog):
     """Names of top-level named function statements (visible everywhere in the program)."""
     return [st["f"]["name"] for st in prog if st.get("k") == "funcdecl" and st.get("hoisted")]
+
+
+def gen_shapes(cx, family, timeout=900):
+    """Enumerate one family of Shapes.tla (program TEXTS outside Lang.tla's integer range) with TLC.
+
+    Returns case rows {id, src, ast: [raw], hoist: []} and the path of the ndjson file holding them."""
+    cfg = 'CONSTANTS Family = "%s"\nINIT Init\nNEXT Next\nINVARIANT Emit\nCHECK_DEADLOCK FALSE\n' % family
+    r = cx.tlc("ShapesGen", cfg_text=cfg, workers=4, name="shapes_" + family, timeout=timeout, heap="4g")
+    cx.tlc_must_pass(r, "ShapesGen/" + family)
+    srcs = sorted(json.loads(s)["src"] for s in r.tuples("SRC"))
+    if not srcs:
+        raise vlib.Inconclusive("ShapesGen produced no programs for family %s" % family)
+    rows = [{"id": i, "src": s, "ast": [{"k": "raw", "src": s}], "hoist": []} for i, s in enumerate(srcs)]
+    path = cx.path("shapes_%s.ndjson" % family)
+    vlib.write_ndjson(path, rows)
+    return rows, path
